@@ -991,7 +991,7 @@ fn main() {
     rep.set("histories_where_tampering_prevented_connection", effective);
     rep.set("histories_both_connected", connected_authentic);
     rep.set("exhaustive", true);
-    rep.set("rule", "every tamper op of the catalogue (certificate replaced by attacker's / empty / attacker+genuine / genuine+attacker / truncated DER; ECDH key replaced keeping or re-signing the signature; attacker certificate with re-signed key exchange; signature bit flip / empty / garbage; curve altered; either random replaced; Certificate / ServerKeyExchange / ServerHelloDone / both omitted; Certificate and ServerKeyExchange swapped; ServerHello replayed; extensions stripped from either hello; cipher suite altered; full MITM with attacker endpoints on both legs, presenting its own or the genuine server's certificate), plus a hand-written scripted attacker server sending every listed sequence of Certificate messages / chains around its key exchange (17 scripts), applied to every matching message incl. retransmissions, x expected fingerprint {correct, absent, wrong} on each side (thorough: all pairs of ops); each history runs two real DtlsTransports to the 30 s handshake deadline in virtual time; oracle: a side holding Some(fingerprint) is Connected only if the fingerprinted peer completed this handshake with identical keys and was shown as leaf certificate, else it ends Failed with no application data and no exporter; distinct_nontrivial = distinct (states, keys_equal, app data) outcomes");
+    rep.set("rule", "every tamper op of the catalogue (certificate replaced by attacker's / empty / attacker+genuine / genuine+attacker / truncated DER; ECDH key replaced keeping or re-signing the signature; attacker certificate with re-signed key exchange; signature bit flip / empty / garbage; curve altered; either random replaced; Certificate / ServerKeyExchange / ServerHelloDone / both omitted; Certificate and ServerKeyExchange swapped; ServerHello replayed; extensions stripped from either hello; cipher suite altered; full MITM with attacker endpoints on both legs, presenting its own or the genuine server's certificate), plus a hand-written scripted attacker server sending every listed sequence of Certificate messages / chains around its key exchange (30 scripts) and a generated space (every step sequence up to a length over a 12-letter alphabet, every signature label x blob next to the genuine certificate; near-miss expected fingerprints), applied to every matching message incl. retransmissions, x expected fingerprint {correct, absent, wrong} on each side (thorough: all pairs of ops); each history runs two real DtlsTransports to the 30 s handshake deadline in virtual time; oracle: a side holding Some(fingerprint) is Connected only if the fingerprinted peer completed this handshake with identical keys and was shown as leaf certificate, else it ends Failed with no application data and no exporter; distinct_nontrivial = distinct (states, keys_equal, app data) outcomes");
     rep.assume("cryptographic primitives are trusted; the attacker cannot forge ECDSA signatures or GCM tags; certificates are P-256 only");
     if outcomes.len() < 2 {
         vh::machinery_failure("vacuous: every history had the same outcome");
